@@ -939,7 +939,8 @@ func (self *PathNode) GetByStr(key string, opts *Options) *PathNode {
 		n, _ := self.Node.len()
 		N := n * 2
 		// TODO: cap may change after Set. Use better way to store hash size
-		if cap(self.Next) >= N {
+		// the children are only stored by hash when the map is larger than the threshold (see scanChildren)
+		if n > StoreChildrenByIntHashShreshold && cap(self.Next) >= N {
 			if s := getStrHash(&self.Next, key, N); s != nil {
 				return s
 			}
@@ -972,7 +973,8 @@ func (self *PathNode) SetByStr(key string, val Node, opts *Options) (bool, error
 		n, _ := self.Node.len()
 		N := n * 2
 		// TODO: cap may change after Set. Use better way to store hash size
-		if cap(self.Next) >= N {
+		// the children are only stored by hash when the map is larger than the threshold (see scanChildren)
+		if n > StoreChildrenByIntHashShreshold && cap(self.Next) >= N {
 			if s := getStrHash(&self.Next, key, N); s != nil {
 				s.Node = val
 				return true, nil
@@ -1010,7 +1012,8 @@ func (self *PathNode) GetByInt(key int, opts *Options) *PathNode {
 		// TODO: size may change after Set. Use better way to store hash size
 		n, _ := self.Node.len()
 		N := n * 2
-		if cap(self.Next) >= N {
+		// the children are only stored by hash when the map is larger than the threshold (see scanChildren)
+		if n > StoreChildrenByIntHashShreshold && cap(self.Next) >= N {
 			if s := getIntHash(&self.Next, uint64(key), N); s != nil {
 				return s
 			}
@@ -1042,7 +1045,8 @@ func (self *PathNode) SetByInt(key int, val Node, opts *Options) (bool, error) {
 	if opts.StoreChildrenByHash {
 		n, _ := self.Node.len()
 		N := n * 2
-		if cap(self.Next) >= N {
+		// the children are only stored by hash when the map is larger than the threshold (see scanChildren)
+		if n > StoreChildrenByIntHashShreshold && cap(self.Next) >= N {
 			if s := getIntHash(&self.Next, uint64(key), N); s != nil {
 				s.Node = val
 				return true, nil
